@@ -71,6 +71,7 @@ def run(ctx):
     ctx.extra_cov['histories_total_to_bound'] = total
     ctx.extra_cov['histories_replayed'] = len(chosen)
     ctx.extra_cov['history_length'] = maxops
+    ctx.extra_cov['schedule_updates_sent_as_option_fields_only'] = sum(int((r.get('extra') or {}).get('scheduleUpdatesViaOptions', 0)) for r in results)
     ctx.rule = (f'every history of {maxops} operations (create(status, schedule) in the lowest free slot, update(status|keep, schedule|keep), '
                 'delete, restart) over 2 task slots and 2 schedules (sampled by seed above the budget); after every step the folded '
                 'Schedule/Release call log must equal the specification\'s `scheduled`; non-trivial = history with an update or a task '
@@ -79,7 +80,8 @@ def run(ctx):
         'the task store is an in-memory fake (explicit Every/Cron/Offset per abstract schedule; Flux source is never parsed); '
         'middleware, coordinator, NewSchedulableTask, NewSchedule and NotifyCoordinatorOfExisting are the real code',
         'a schedule is identified by its first two due times after a reference instant and its offset; the concretisation of '
-        'the two abstract schedules (every / cron / offset-only difference / mixed) is chosen by seed',
+        'the two abstract schedules (every / cron / offset-only difference / mixed) is chosen by seed; a schedule change is sent either as a new script '
+        '(TaskUpdate.Flux) or as option fields only (TaskUpdate.Options with Flux == nil, as an API PATCH of every/cron/offset), with or without Status (by seed, per step)',
         'store or scheduler errors (failed create with cleanup, ErrTaskNotClaimed) are outside the model',
     ]
 
